@@ -163,13 +163,19 @@ func buildFnInfo(fn *ssa.Function) *FnInfo {
 						continue
 					}
 					out := !l.Blocks[rb.Index]
-					if !out {
-						// a phi in the loop header reading the value over the back edge is handled
-						// by edge phi values; nothing to do
-						continue
+					if phi, isPhi := r.(*ssa.Phi); isPhi {
+						// a phi reads its operand on the incoming edge: the use is outside the loop iff
+						// the edge's source block is (an exit path may run through blocks outside the loop
+						// before it reaches the phi: the value must then survive later iterations)
+						out = false
+						for i, e := range phi.Edges {
+							if e == v && !l.Blocks[rb.Preds[i].Index] {
+								out = true
+							}
+						}
 					}
-					if _, isPhi := r.(*ssa.Phi); isPhi {
-						continue // phi operands are evaluated when the edge is taken
+					if !out {
+						continue
 					}
 					if !seen[v] {
 						seen[v] = true
